@@ -383,6 +383,50 @@ def native_replay(o=None, ntrials=300):
     return bad, '\n'.join(lines)
 
 
+def roundtrip_lemmas(R):
+    """the property as a lemma over the two proved contracts (z3, all sizes, any number of successive saves):
+      save ensures  : has'(i,q) = cond(i,q) or has(i,q);  val'(i,q) = ent(q, idx(i)) if cond(i,q) else val(i,q);
+                      exists'(i) = exists(i) or i in it           [savevc: ensures + 'opens exactly the file of its iteration']
+      read ensures  : entry(i,q) = val(i,q) if exists(i) and has(i,q) else None                         [readvc]
+      invariant WF  : has(i,q) -> exists(i)     (a dataset lives in a file)
+    L1  WF is preserved by a save (cond(i,q) -> i in it).
+    L2  what a save stores is what a read returns:      cond(i,q)  -> Read'(i,q) = Some(ent(q, idx(i)))
+    L3  everything else reads as before the save:   not cond(i,q)  -> Read'(i,q) = Read(i,q)
+    By induction over the sequence of saves: a read returns, for every (iteration, variable, level), the array of the most
+    recent save that selected it and had a non-None entry for it, and None if there is none."""
+    import z3
+    from engine.symx import prove
+    I_, B_ = z3.IntSort(), z3.BoolSort()
+    ex, init = z3.Function('exists', I_, B_), z3.Function('init', I_, B_)
+    has, cond = z3.Function('has', I_, I_, B_), z3.Function('cond', I_, I_, B_)
+    val, ent = z3.Function('val', I_, I_, I_), z3.Function('ent', I_, I_, I_)
+    i, q = z3.Int('i'), z3.Int('q')
+    has1 = lambda a, b: z3.Or(cond(a, b), has(a, b))
+    val1 = lambda a, b: z3.If(cond(a, b), ent(a, b), val(a, b))
+    ex1 = lambda a: z3.Or(ex(a), init(a))
+    WF = z3.ForAll([i, q], z3.Implies(has(i, q), ex(i)))
+    sel = z3.ForAll([i, q], z3.Implies(cond(i, q), init(i)))           # only iterations passed to save_data are written
+    NONE = z3.IntVal(-1)
+    some = lambda v: v                                                      # entries are ids >= 0; None is -1
+    nonneg = z3.ForAll([i, q], z3.And(val(i, q) >= 0, ent(i, q) >= 0))
+    read0 = lambda a, b: z3.If(z3.And(ex(a), has(a, b)), val(a, b), NONE)
+    read1 = lambda a, b: z3.If(z3.And(ex1(a), has1(a, b)), val1(a, b), NONE)
+    lemmas = [('L1 well-formedness (a dataset lives in an existing file) is preserved by a save', z3.Implies(z3.And(WF, sel), z3.ForAll([i, q], z3.Implies(has1(i, q), ex1(i))))),
+              ('L2 what a save stores is what the next read returns', z3.Implies(z3.And(WF, sel, nonneg), z3.ForAll([i, q], z3.Implies(cond(i, q), read1(i, q) == ent(i, q))))),
+              ('L3 every other (iteration, variable) reads as before the save', z3.Implies(z3.And(WF, sel, nonneg), z3.ForAll([i, q], z3.Implies(z3.Not(cond(i, q)), read1(i, q) == read0(i, q))))),
+              ('L0 (vacuity) the hypotheses are satisfiable', z3.Not(z3.And(WF, sel, nonneg, cond(0, 0))))]
+    for name, goal in lemmas:
+        t0 = time.time()
+        v, model, secs = prove([], goal, 20000)
+        if name.startswith('L0'):
+            st = 'discharged' if v == 'invalid' else 'undecided'
+            det = 'a model of the hypotheses exists' if v == 'invalid' else f'hypotheses not shown satisfiable: {v}'
+        else:
+            st = 'discharged' if v == 'valid' else ('refuted' if v == 'invalid' else 'undecided')
+            det = '' if v == 'valid' else str(model)[:300]
+        R.ob(f'lemma.roundtrip:{name}', 'read_data', st, 'z3', secs, det, [name] if st == 'refuted' else None, replay=native_replay)
+
+
 def run(R):
     from engine.canary import run_canaries
     run_canaries(R, ('symx',))
@@ -398,6 +442,7 @@ def run(R):
     R.bounded.append(dict(function='aurel.save_data / aurel.read_data (native)', bound=f'{ntr} random round trips in temporary directories: dictionaries of 1-8 iterations in any order, subsets, levels, ragged None, requests naming t / it'))
     R.ob('reading.roundtrip[native, random]:read_data(save_data(...)) == saved entries on real files', 'save_data', 'refuted' if badn else 'bounded-ok', 'bounded-native',
          time.time() - t0n, textn if badn else f'{ntr} round trips', [textn[:200]] if badn else None, bounded=f'{ntr} random round trips', replay=lambda o: native_replay(o, ntr))
+    roundtrip_lemmas(R)
     from props import savevc
     savevc.save_obligations(R)          # unbounded: loop contracts on the real statements of save_data
     from props import readvc
